@@ -191,3 +191,399 @@ Proof.
 Qed.
 
 (* TREES: appended below *)
+
+(* ---- AVL trees: index words of wbytes bytes (1 or 4), key and value field
+   types given by [lay].  The independent reader is [decode_doc]
+   (Avl/Format.v).  Each theorem is closed by [exact] of a lemma proved in
+   Avl/DocFacts.v (which builds on Avl/FormatFacts.v, Avl/Alloc.v, Avl/Inv.v,
+   Avl/LinkInsert.v, Avl/LinkSteps.v).  [remove_spec_statement bits] is the
+   statement of Avl/LinkRemove.v's [remove_spec]; the theorem about removal
+   takes it as a premise. ---- *)
+From Stevia Require Import Avl.Impl Avl.Tree Avl.Rep Avl.Spec Avl.TreeInv Avl.TreeOps Avl.Alloc Avl.Inv
+  Avl.LinkInsert Avl.LinkSteps Avl.Format Avl.FormatFacts Avl.Balance Avl.DocFacts.
+(* Avl/WordsOk.v: the word invariant [words_ok] (every header word and every
+   index/height register fits an index word), which holds initially, is
+   preserved by every operation and, with the master invariant, implies
+   [hdr_fits].  Avl/Final.v: [remove_spec_statement] proved from
+   Avl/LinkRemove.v.  The [_final] theorems below are the conditional ones
+   with [hdr_fits] replaced by [words_ok] / without the removal premise. *)
+From Stevia Require Import Avl.LinkRemove Avl.WordsOk Avl.Final.
+
+(* the vocabulary: the index width in bits; "keys and values fit their field
+   types"; "cursor and free-chain terminator fit an index word" (an explicit
+   premise: the allocator invariant as it stands does not bound them once the
+   cursor has passed the capacity, see C10_avl_hdr_fits_needed); the reader's
+   tree for a tree of layer T; data_len *)
+Theorem C10_avl_defs : forall wbytes lay s t term c,
+  bits_of wbytes = 8 * N.of_nat wbytes /\
+  (kv_fits lay t <->
+   forall slot k v, In (slot, k, v) (triples t) ->
+     zval_ok (fsigned (kty lay)) (N.to_nat (ksz lay)) k /\
+     zval_ok (fsigned (vty lay)) (N.to_nat (vsz lay)) v) /\
+  (hdr_fits wbytes s term <-> seq s < 2 ^ bits_of wbytes /\ term < 2 ^ bits_of wbytes) /\
+  dt_of E = DE /\
+  (forall l i k v h r, dt_of (T l i k v h r) = DT (dt_of l) i k v h (dt_of r)) /\
+  data_len wbytes lay c = N.of_nat (hdr_len wbytes) + c * rec_len wbytes lay /\
+  hdr_len 1 = 8%nat /\ hdr_len 4 = 24%nat /\
+  rec_len wbytes lay =
+    round_up (round_up (round_up (4 * N.of_nat wbytes) (ksz lay) + ksz lay) (vsz lay) + vsz lay)
+             (N.max (N.of_nat wbytes) (N.max (ksz lay) (vsz lay))).
+Proof.
+  exact (fun wbytes lay s t term c =>
+    conj eq_refl (conj (iff_refl _) (conj (iff_refl _) (conj eq_refl (conj (fun l i k v h r => eq_refl)
+      (conj eq_refl (conj eq_refl (conj eq_refl eq_refl)))))))).
+Qed.
+Print Assumptions C10_avl_defs.
+
+(* the word invariant: purely syntactic, independent of trees *)
+Theorem C10_avl_words_ok_def_final : forall bits s,
+  words_ok bits s <->
+  root s < 2 ^ bits /\ size s < 2 ^ bits /\ cap s < 2 ^ bits /\ flh s < 2 ^ bits /\ seq s < 2 ^ bits /\
+  Forall (fun n => nl n < 2 ^ bits /\ nr n < 2 ^ bits /\ nh n < 2 ^ bits) (nodes s).
+Proof. exact (fun bits s => iff_refl _). Qed.
+Print Assumptions C10_avl_words_ok_def_final.
+
+(* it holds in an initialised buffer, every operation preserves it (no other
+   hypothesis), so it holds after every history *)
+Theorem C10_avl_words_ok_init_final : forall bits capacity nrec,
+  1 <= bits -> capacity < 2 ^ bits -> words_ok bits (init_c capacity nrec).
+Proof. exact words_ok_init. Qed.
+Print Assumptions C10_avl_words_ok_init_final.
+
+Theorem C10_avl_words_ok_step_final : forall bits s o s' out log,
+  step_c bits s o = Ok (s', out, log) -> words_ok bits s -> words_ok bits s'.
+Proof. exact step_c_words_ok. Qed.
+Print Assumptions C10_avl_words_ok_step_final.
+
+Theorem C10_avl_words_ok_run_final : forall bits capacity nrec ops s,
+  1 <= bits -> capacity < 2 ^ bits -> final_c bits (init_c capacity nrec) ops = Ok s -> words_ok bits s.
+Proof. exact run_words_ok. Qed.
+Print Assumptions C10_avl_words_ok_run_final.
+
+(* with the master invariant it gives the extra premise [hdr_fits]: the
+   terminator of the free chain is the free-list head word or the height
+   register of the last recycled record *)
+Theorem C10_avl_hdr_fits_words_final : forall wbytes s t fr term,
+  Inv (bits_of wbytes) s t fr term -> words_ok (bits_of wbytes) s -> hdr_fits wbytes s term.
+Proof. exact hdr_fits_words. Qed.
+Print Assumptions C10_avl_hdr_fits_words_final.
+
+(* every state satisfying the invariant is representable: all header words
+   and registers fit the index width, keys and values fit their fields *)
+Theorem C10_avl_st_ok : forall wbytes lay,
+  wbytes = 1%nat \/ wbytes = 4%nat -> 0 < ksz lay -> 0 < vsz lay ->
+  forall s t fr term,
+  Inv (bits_of wbytes) s t fr term -> kv_fits lay t -> hdr_fits wbytes s term ->
+  st_ok wbytes lay s.
+Proof. exact inv_st_ok. Qed.
+Print Assumptions C10_avl_st_ok.
+
+Theorem C10_avl_st_ok_final : forall wbytes lay,
+  wbytes = 1%nat \/ wbytes = 4%nat -> 0 < ksz lay -> 0 < vsz lay ->
+  forall s t fr term,
+  Inv (bits_of wbytes) s t fr term -> kv_fits lay t -> words_ok (bits_of wbytes) s ->
+  st_ok wbytes lay s.
+Proof. exact inv_st_ok_w. Qed.
+Print Assumptions C10_avl_st_ok_final.
+
+(* where the extra premise follows from the invariant *)
+Theorem C10_avl_hdr_fits_room : forall wbytes s t fr term,
+  Inv (bits_of wbytes) s t fr term -> Alloc.lseq (bits_of wbytes) s <= cap s -> hdr_fits wbytes s term.
+Proof. exact hdr_fits_room. Qed.
+Print Assumptions C10_avl_hdr_fits_room.
+
+Theorem C10_avl_seq_fits_u32 : forall wbytes s t fr term,
+  Inv (bits_of wbytes) s t fr term -> wbytes = 4%nat -> seq s < 2 ^ bits_of wbytes.
+Proof. exact seq_fits_u32. Qed.
+Print Assumptions C10_avl_seq_fits_u32.
+
+(* and that it is needed *)
+Theorem C10_avl_hdr_fits_needed :
+  let s := mkS 0 0 1 1 2 [mkN 0 0 999 0 0] in
+  Inv 8 s E [1] 999 /\ decode 1 ex_lay8 (encode 1 ex_lay8 s) <> Some s.
+Proof. exact term_not_bounded_by_inv. Qed.
+Print Assumptions C10_avl_hdr_fits_needed.
+
+(* In every state satisfying the invariant the independent reader
+   - succeeds and reads the header words root, size, capacity, free-list
+     head, sequence;
+   - following the links from the root reads exactly the tree, so its in-order
+     list of (slot, key, value) is that of the tree and the (key, value)
+     pairs are exactly the contents the API reports ([get] answers from them);
+   - following the height registers from the free-list head for
+     lseq - 1 - size steps reads exactly the free chain;
+   - finds the never-used slots to be those from the cursor on;
+   - finds the buffer well formed ([d_wf]: no slot twice among live and
+     recycled, all of them in [1, cursor), size word = number of live slots,
+     cursor <= capacity + 1, capacity <= number of records, never-used records
+     all zero, recycled records zero but for the chain link), the keys strictly
+     increasing in order ([d_bst]) and the tree height balanced with exact
+     stored heights ([d_bal]);
+   - every slot 1..number of records is in exactly one of the classes live /
+     recycled / never used;
+   and the buffer is exactly data_len(number of records) bytes. *)
+Theorem C10_avl_doc : forall wbytes lay,
+  wbytes = 1%nat \/ wbytes = 4%nat -> 0 < ksz lay -> 0 < vsz lay ->
+  forall s t fr term,
+  Inv (bits_of wbytes) s t fr term -> kv_fits lay t -> hdr_fits wbytes s term ->
+  exists d, decode_doc wbytes lay (encode wbytes lay s) = Some d /\
+    d_hdr d = [root s; size s; cap s; flh s; seq s] /\
+    d_tree d = dt_of t /\
+    d_inorder (d_tree d) = triples t /\
+    map tr_kv (d_inorder (d_tree d)) = inorder t /\
+    (forall key, get s key = Ok (sm_find (map tr_kv (d_inorder (d_tree d))) key, t_log t key)) /\
+    d_free d = fr /\ N.of_nat (length fr) = Alloc.lseq (bits_of wbytes) s - 1 - size s /\
+    (forall i, In i (d_never d) <->
+       Alloc.lseq (bits_of wbytes) s <= i /\ 1 <= i <= N.of_nat (length (nodes s))) /\
+    d_wf d = true /\ d_bst d = true /\ d_bal d = true /\
+    NoDup (idxs t ++ fr ++ d_never d) /\
+    (forall i, In i (idxs t ++ fr ++ d_never d) <-> 1 <= i <= N.of_nat (length (nodes s))) /\
+    N.of_nat (length (encode wbytes lay s)) = data_len wbytes lay (N.of_nat (length (nodes s))).
+Proof. exact avl_doc. Qed.
+Print Assumptions C10_avl_doc.
+
+Theorem C10_avl_doc_final : forall wbytes lay,
+  wbytes = 1%nat \/ wbytes = 4%nat -> 0 < ksz lay -> 0 < vsz lay ->
+  forall s t fr term,
+  Inv (bits_of wbytes) s t fr term -> kv_fits lay t -> words_ok (bits_of wbytes) s ->
+  exists d, decode_doc wbytes lay (encode wbytes lay s) = Some d /\
+    d_hdr d = [root s; size s; cap s; flh s; seq s] /\
+    d_tree d = dt_of t /\
+    d_inorder (d_tree d) = triples t /\
+    map tr_kv (d_inorder (d_tree d)) = inorder t /\
+    (forall key, get s key = Ok (sm_find (map tr_kv (d_inorder (d_tree d))) key, t_log t key)) /\
+    d_free d = fr /\ N.of_nat (length fr) = Alloc.lseq (bits_of wbytes) s - 1 - size s /\
+    (forall i, In i (d_never d) <->
+       Alloc.lseq (bits_of wbytes) s <= i /\ 1 <= i <= N.of_nat (length (nodes s))) /\
+    d_wf d = true /\ d_bst d = true /\ d_bal d = true /\
+    NoDup (idxs t ++ fr ++ d_never d) /\
+    (forall i, In i (idxs t ++ fr ++ d_never d) <-> 1 <= i <= N.of_nat (length (nodes s))) /\
+    N.of_nat (length (encode wbytes lay s)) = data_len wbytes lay (N.of_nat (length (nodes s))).
+Proof. exact avl_doc_w. Qed.
+Print Assumptions C10_avl_doc_final.
+
+(* [reach bits s]: s is reached from an initialised buffer of [capacity]
+   records by any operations; a growth step must leave the record count
+   addressable by an index word *)
+Theorem C10_avl_reach_def : forall bits s,
+  reach bits s <->
+  (exists capacity, capacity < 2 ^ bits /\ (bits <> 8 -> capacity + 1 < 2 ^ bits) /\
+     s = init_c capacity capacity) \/
+  (exists s0 o out log, reach bits s0 /\ step_c bits s0 o = Ok (s, out, log) /\
+     (forall n, o = OExt n -> sizecond bits s)).
+Proof. exact reach_unfold. Qed.
+Print Assumptions C10_avl_reach_def.
+
+(* every reachable state satisfies the master invariant for some tree, and
+   for every such tree whose keys and values fit the layout the state is
+   representable, decodes to itself, and the independent reader's verdicts
+   hold - no further premise *)
+Theorem C10_avl_doc_reachable : forall wbytes lay,
+  wbytes = 1%nat \/ wbytes = 4%nat -> 0 < ksz lay -> 0 < vsz lay ->
+  forall s, reach (bits_of wbytes) s ->
+  (exists t fr term, Inv (bits_of wbytes) s t fr term /\ hdr_fits wbytes s term) /\
+  (forall t fr term, Inv (bits_of wbytes) s t fr term -> kv_fits lay t ->
+   hdr_fits wbytes s term /\ st_ok wbytes lay s /\
+   decode wbytes lay (encode wbytes lay s) = Some s /\
+   exists d, decode_doc wbytes lay (encode wbytes lay s) = Some d /\
+    d_hdr d = [root s; size s; cap s; flh s; seq s] /\
+    d_tree d = dt_of t /\
+    d_inorder (d_tree d) = triples t /\
+    map tr_kv (d_inorder (d_tree d)) = inorder t /\
+    (forall key, get s key = Ok (sm_find (map tr_kv (d_inorder (d_tree d))) key, t_log t key)) /\
+    d_free d = fr /\ N.of_nat (length fr) = Alloc.lseq (bits_of wbytes) s - 1 - size s /\
+    (forall i, In i (d_never d) <->
+       Alloc.lseq (bits_of wbytes) s <= i /\ 1 <= i <= N.of_nat (length (nodes s))) /\
+    d_wf d = true /\ d_bst d = true /\ d_bal d = true /\
+    NoDup (idxs t ++ fr ++ d_never d) /\
+    (forall i, In i (idxs t ++ fr ++ d_never d) <-> 1 <= i <= N.of_nat (length (nodes s))) /\
+    N.of_nat (length (encode wbytes lay s)) = data_len wbytes lay (N.of_nat (length (nodes s)))).
+Proof. exact avl_doc_reachable. Qed.
+Print Assumptions C10_avl_doc_reachable.
+
+(* what the reader's verdicts mean *)
+Theorem C10_avl_verdicts_sound : forall t l,
+  (d_balanced (dt_of t) = true -> avl t /\ hok t) /\
+  (sorted_keys l = true -> Sorted.StronglySorted Z.lt l).
+Proof. exact (fun t l => conj (d_balanced_sound t) (sorted_keys_sound l)). Qed.
+Print Assumptions C10_avl_verdicts_sound.
+
+(* the header words *)
+Theorem C10_avl_header_words : forall wbytes lay,
+  wbytes = 1%nat \/ wbytes = 4%nat -> 0 < ksz lay -> 0 < vsz lay ->
+  forall s t fr term,
+  Inv (bits_of wbytes) s t fr term -> kv_fits lay t -> hdr_fits wbytes s term ->
+  word wbytes (encode wbytes lay s) 0 = root s /\ word wbytes (encode wbytes lay s) 1 = size s /\
+  word wbytes (encode wbytes lay s) 2 = cap s /\ word wbytes (encode wbytes lay s) 3 = flh s /\
+  word wbytes (encode wbytes lay s) 4 = seq s.
+Proof. exact inv_header_words. Qed.
+Print Assumptions C10_avl_header_words.
+
+Theorem C10_avl_header_words_final : forall wbytes lay,
+  wbytes = 1%nat \/ wbytes = 4%nat -> 0 < ksz lay -> 0 < vsz lay ->
+  forall s t fr term,
+  Inv (bits_of wbytes) s t fr term -> kv_fits lay t -> words_ok (bits_of wbytes) s ->
+  word wbytes (encode wbytes lay s) 0 = root s /\ word wbytes (encode wbytes lay s) 1 = size s /\
+  word wbytes (encode wbytes lay s) 2 = cap s /\ word wbytes (encode wbytes lay s) 3 = flh s /\
+  word wbytes (encode wbytes lay s) 4 = seq s.
+Proof. exact inv_header_words_w. Qed.
+Print Assumptions C10_avl_header_words_final.
+
+(* every entry is the record addressed by its 1-based slot *)
+Theorem C10_avl_entry_bytes : forall wbytes lay,
+  wbytes = 1%nat \/ wbytes = 4%nat -> 0 < ksz lay -> 0 < vsz lay ->
+  forall s t fr term slot k v,
+  Inv (bits_of wbytes) s t fr term -> In (slot, k, v) (triples t) ->
+  exists n, rec_at s slot = Some n /\ nk n = k /\ nv n = v /\
+    sub (encode wbytes lay s) (rec_off wbytes lay slot) (rec_len wbytes lay) = enc_node wbytes lay n /\
+    (kv_fits lay t -> hdr_fits wbytes s term ->
+     dec_node wbytes lay (sub (encode wbytes lay s) (rec_off wbytes lay slot) (rec_len wbytes lay)) = n).
+Proof. exact inv_entry_bytes. Qed.
+Print Assumptions C10_avl_entry_bytes.
+
+Theorem C10_avl_entry_bytes_final : forall wbytes lay,
+  wbytes = 1%nat \/ wbytes = 4%nat -> 0 < ksz lay -> 0 < vsz lay ->
+  forall s t fr term slot k v,
+  Inv (bits_of wbytes) s t fr term -> In (slot, k, v) (triples t) ->
+  exists n, rec_at s slot = Some n /\ nk n = k /\ nv n = v /\
+    sub (encode wbytes lay s) (rec_off wbytes lay slot) (rec_len wbytes lay) = enc_node wbytes lay n /\
+    (kv_fits lay t -> words_ok (bits_of wbytes) s ->
+     dec_node wbytes lay (sub (encode wbytes lay s) (rec_off wbytes lay slot) (rec_len wbytes lay)) = n).
+Proof. exact inv_entry_bytes_w. Qed.
+Print Assumptions C10_avl_entry_bytes_final.
+
+(* data_len(c) is exactly header plus c records *)
+Theorem C10_avl_data_len : forall wbytes lay,
+  wbytes = 1%nat \/ wbytes = 4%nat -> 0 < ksz lay -> 0 < vsz lay ->
+  forall s t fr term,
+  Inv (bits_of wbytes) s t fr term ->
+  N.of_nat (length (encode wbytes lay s)) = data_len wbytes lay (N.of_nat (length (nodes s))) /\
+  (N.of_nat (length (nodes s)) <= cap s ->
+   N.of_nat (length (encode wbytes lay s)) = data_len wbytes lay (cap s)) /\
+  data_len wbytes lay (cap s) <= N.of_nat (length (encode wbytes lay s)).
+Proof. exact inv_data_len. Qed.
+Print Assumptions C10_avl_data_len.
+
+(* the index returned by a tree insertion is the record holding that entry *)
+Theorem C10_avl_insert_slot : forall bits s t fr term key value s' new log,
+  Inv bits s t fr term -> okbits bits ->
+  insert bits s key value = Ok (s', Some new, log) ->
+  exists fr' term',
+    Inv bits s' (t_insert t new key value) fr' term' /\
+    In (new, key, value) (triples (t_insert t new key value)) /\
+    t_find (t_insert t new key value) key = Some (new, value) /\
+    ~ In new (idxs t) /\
+    (exists n, getn (nodes s') new = Ok n /\ rec_at s' new = Some n /\ nk n = key /\ nv n = value) /\
+    (forall slot k v, In (slot, k, v) (triples t) -> In (slot, k, v) (triples (t_insert t new key value))).
+Proof. exact insert_slot_holds. Qed.
+Print Assumptions C10_avl_insert_slot.
+
+Theorem C10_avl_insert_slot_bytes : forall wbytes lay,
+  wbytes = 1%nat \/ wbytes = 4%nat -> 0 < ksz lay -> 0 < vsz lay ->
+  forall s t fr term key value s' new log,
+  Inv (bits_of wbytes) s t fr term ->
+  insert (bits_of wbytes) s key value = Ok (s', Some new, log) ->
+  exists n, rec_at s' new = Some n /\ nk n = key /\ nv n = value /\
+    sub (encode wbytes lay s') (rec_off wbytes lay new) (rec_len wbytes lay) = enc_node wbytes lay n.
+Proof. exact insert_slot_bytes. Qed.
+Print Assumptions C10_avl_insert_slot_bytes.
+
+(* a live entry never moves to another record *)
+Theorem C10_avl_never_moves_insert : forall bits s t fr term key value,
+  Inv bits s t fr term -> okbits bits ->
+  exists s' r t' fr' term',
+    insert bits s key value = Ok (s', r, t_log t key) /\ Inv bits s' t' fr' term' /\
+    (forall slot k v, In (slot, k, v) (triples t) -> In (slot, k, v) (triples t') /\
+       exists n, getn (nodes s') slot = Ok n /\ nk n = k /\ nv n = v).
+Proof. exact insert_never_moves. Qed.
+Print Assumptions C10_avl_never_moves_insert.
+
+Theorem C10_avl_never_moves_get_mut : forall bits s t fr term key v',
+  Inv bits s t fr term ->
+  exists s',
+    get_mut_set s key v' = Ok (s', sm_find (inorder t) key, t_log t key) /\
+    Inv bits s' (t_update t key v') fr term /\
+    (forall slot k v, In (slot, k, v) (triples t) -> k <> key ->
+       In (slot, k, v) (triples (t_update t key v')) /\
+       exists n, getn (nodes s') slot = Ok n /\ nk n = k /\ nv n = v) /\
+    (forall slot v, t_find t key = Some (slot, v) ->
+       t_find (t_update t key v') key = Some (slot, v') /\
+       exists n, getn (nodes s') slot = Ok n /\ nk n = key /\ nv n = v').
+Proof. exact get_mut_never_moves. Qed.
+Print Assumptions C10_avl_never_moves_get_mut.
+
+Theorem C10_avl_never_moves_remove : forall bits, remove_spec_statement bits ->
+  forall s t fr term key,
+  Inv bits s t fr term -> okbits bits ->
+  exists s' r t' fr' term',
+    remove bits s key = Ok (s', r, t_log t key) /\ Inv bits s' t' fr' term' /\
+    r = option_map snd (t_find t key) /\
+    (forall slot v, t_find t key = Some (slot, v) -> fr' = slot :: fr /\ t' = t_remove t key) /\
+    (t_find t key = None -> s' = s /\ t' = t) /\
+    (forall slot k v, In (slot, k, v) (triples t) -> k <> key ->
+       In (slot, k, v) (triples t') /\
+       exists n, getn (nodes s') slot = Ok n /\ nk n = k /\ nv n = v).
+Proof. exact remove_never_moves. Qed.
+Print Assumptions C10_avl_never_moves_remove.
+
+Theorem C10_avl_remove_spec_holds_final : forall bits, remove_spec_statement bits.
+Proof. exact remove_spec_holds. Qed.
+Print Assumptions C10_avl_remove_spec_holds_final.
+
+Theorem C10_avl_never_moves_remove_final : forall bits s t fr term key,
+  Inv bits s t fr term -> okbits bits ->
+  exists s' r t' fr' term',
+    remove bits s key = Ok (s', r, t_log t key) /\ Inv bits s' t' fr' term' /\
+    r = option_map snd (t_find t key) /\
+    (forall slot v, t_find t key = Some (slot, v) -> fr' = slot :: fr /\ t' = t_remove t key) /\
+    (t_find t key = None -> s' = s /\ t' = t) /\
+    (forall slot k v, In (slot, k, v) (triples t) -> k <> key ->
+       In (slot, k, v) (triples t') /\
+       exists n, getn (nodes s') slot = Ok n /\ nk n = k /\ nv n = v).
+Proof. exact remove_never_moves_final. Qed.
+Print Assumptions C10_avl_never_moves_remove_final.
+
+(* ---- example: the u8 tree of Avl/Balance.v (eight ascending insertions and
+   a removal; u8 keys, i32 values, 12-byte records): its bytes, and what the
+   reader finds - slot 2 recycled, slots 9 and 10 never used ---- *)
+Example C10_avl_example :
+  final_c 8 (init_c 9 10)
+    [OInsert 10 100; OInsert 20 200; OInsert 30 300; OInsert 40 400; OInsert 50 500;
+     OInsert 60 600; OInsert 70 700; OInsert 45 450; ORemove 20]%Z = Ok ex_state /\
+  Inv 8 ex_state ex_tree [2] 9 /\ kv_fits ex_lay8 ex_tree /\ hdr_fits 1 ex_state 9 /\
+  encode 1 ex_lay8 ex_state =
+    [4; 7; 10; 2; 9; 0; 0; 0;
+     0; 0; 0; 0;   10; 0; 0; 0;   100; 0; 0; 0;
+     0; 0; 9; 0;    0; 0; 0; 0;     0; 0; 0; 0;
+     1; 0; 1; 0;   30; 0; 0; 0;    44; 1; 0; 0;
+     3; 6; 3; 0;   40; 0; 0; 0;   144; 1; 0; 0;
+     8; 0; 1; 0;   50; 0; 0; 0;   244; 1; 0; 0;
+     5; 7; 2; 0;   60; 0; 0; 0;    88; 2; 0; 0;
+     0; 0; 0; 0;   70; 0; 0; 0;   188; 2; 0; 0;
+     0; 0; 0; 0;   45; 0; 0; 0;   194; 1; 0; 0;
+     0; 0; 0; 0;    0; 0; 0; 0;     0; 0; 0; 0;
+     0; 0; 0; 0;    0; 0; 0; 0;     0; 0; 0; 0] /\
+  decode_doc 1 ex_lay8 (encode 1 ex_lay8 ex_state) =
+    Some (mkDoc [4; 7; 10; 2; 9]
+            (DT (DT (DT DE 1 10 100 0 DE) 3 30 300 1 DE) 4 40 400 3
+                (DT (DT (DT DE 8 45 450 0 DE) 5 50 500 1 DE) 6 60 600 2 (DT DE 7 70 700 0 DE)))
+            [2] [9; 10] true true true).
+Proof.
+  split; [exact ex_run|]. split; [exact ex_inv|]. destruct ex_doc as (H1 & H2 & H3).
+  split; [exact H1|]. split; [exact H2|]. split; [vm_compute; reflexivity|exact H3].
+Qed.
+
+(* a reader that meets a slot both live and recycled says so: the same bytes
+   with the free-list head pointing at the live slot 1 *)
+Example C10_avl_reader_discriminates :
+  exists d, decode_doc 1 ex_lay8 (encode 1 ex_lay8 (with_flh ex_state 1)) = Some d /\ d_wf d = false.
+Proof. eexists. split; vm_compute; reflexivity. Qed.
+
+(* the example state satisfies the word invariant (it is the result of a
+   history), so the [_final] theorems apply to it *)
+Example C10_avl_words_ok_example : words_ok 8 ex_state /\ hdr_fits 1 ex_state 9.
+Proof.
+  assert (H : words_ok 8 ex_state).
+  { apply (run_words_ok 8 9 10 ex_ops ex_state); [intros HH; discriminate HH|reflexivity|exact ex_run]. }
+  split; [exact H|]. exact (hdr_fits_words 1 ex_state ex_tree [2] 9 ex_inv H).
+Qed.
